@@ -184,7 +184,7 @@ class PopScope(FnContract):
         s = scopes_ref(ex, self_)
         n = ex.heap.llen(s)
         ex.event('pop_scope', self_)
-        ex.list_write('scope-pop', s, n - 1, shifted_delete(ex.heap.lelts(s), n - 1))
+        ex.list_write('scope-pop', s, n - 1, shifted_delete(ex, ex.heap.lelts(s), n - 1))
         return L.NoneV
 
     def check(self, ex, ctx, outcome):
@@ -233,7 +233,7 @@ class MakeScope(FnContract):
         s, n, self_ = tok
         m = ex.heap.llen(s)
         ex.event('pop_scope', self_)
-        ex.list_write('scope-pop', s, m - 1, shifted_delete(ex.heap.lelts(s), m - 1))
+        ex.list_write('scope-pop', s, m - 1, shifted_delete(ex, ex.heap.lelts(s), m - 1))
 
     def apply(self, ex, args, kwargs):
         raise Unsupported('make_scope outside with')
